@@ -2,13 +2,16 @@ package ea
 
 import (
 	"fmt"
+	"net"
 	"net/http"
 	"net/http/httptest"
+	"time"
 
 	"github.com/openebs/jiva/backend/remote"
 	"github.com/openebs/jiva/replica"
 	rclient "github.com/openebs/jiva/replica/client"
 	"github.com/openebs/jiva/replica/rest"
+	"github.com/openebs/jiva/rpc"
 	"github.com/openebs/jiva/types"
 )
 
@@ -31,6 +34,67 @@ type mgmtAPI interface {
 	SetCheckpoint(name string) error
 	SetRebuilding(b bool) error
 	SetRevisionCounter(n int64) error
+}
+
+// dataAPI is the data path seam: direct calls on *replica.Server, or (Cfg.ViaRPC) the real rpc.Client talking over a
+// loopback TCP connection to the real rpc.Server whose data processor is the same replica.Server - the way the
+// controller's backend reaches a replica.  The rpc goroutines run free; every call is synchronous for the harness.
+type dataAPI interface {
+	WriteAt(buf []byte, off int64) (int, error)
+	ReadAt(buf []byte, off int64) (int, error)
+	Sync() (int, error)
+	Unmap(off, length int64) (int, error)
+}
+
+type rpcPath struct {
+	srv    *replica.Server
+	client *rpc.Client
+	cconn  net.Conn
+	sconn  net.Conn
+	done   chan struct{}
+}
+
+var rpcCalls int
+
+func (x *inst) dio() dataAPI {
+	if !x.cfg.ViaRPC {
+		return x.srv
+	}
+	if x.rpc == nil || x.rpc.srv != x.srv {
+		x.closeRPC()
+		l, err := net.Listen("tcp", "127.0.0.1:0")
+		if err != nil {
+			panic("rpc listen: " + err.Error())
+		}
+		acc := make(chan net.Conn, 1)
+		go func() { c, _ := l.Accept(); acc <- c }()
+		cc, err := net.Dial("tcp", l.Addr().String())
+		if err != nil {
+			panic("rpc dial: " + err.Error())
+		}
+		sc := <-acc
+		l.Close()
+		p := &rpcPath{srv: x.srv, cconn: cc, sconn: sc, done: make(chan struct{})}
+		server := rpc.NewServer(sc, x.srv)
+		go func() { server.Handle(); close(p.done) }()
+		p.client = rpc.NewClient(cc, make(chan struct{}, 16))
+		x.rpc = p
+	}
+	rpcCalls++
+	return x.rpc.client
+}
+
+func (x *inst) closeRPC() {
+	if x.rpc == nil {
+		return
+	}
+	x.rpc.cconn.Close()
+	x.rpc.sconn.Close()
+	select {
+	case <-x.rpc.done:
+	case <-time.After(5 * time.Second):
+	}
+	x.rpc = nil
 }
 
 const restHost = "127.0.0.1:9502"
